@@ -1,2 +1,2 @@
-CFGS = ["sse2", "sse2-rel", "scalar", "coresimd", "fma", "libm"]
-BINS = ["lane", "tok", "int", "lin", "mask", "conv", "hid", "rot", "interp"]
+CFGS = ["sse2", "sse2-rel", "scalar", "coresimd", "fma", "libm", "asan"]
+BINS = ["lane", "tok", "int", "lin", "mask", "conv", "hid", "rot", "interp", "safe"]
